@@ -1,7 +1,7 @@
 //! Pure (in-process, no sockets) checks: C02, C03 (pure half), C04 (pure half), C19, C20.
 //! All parameters come from the environment (see report::Params).
 
-use gpa_verif::props::{c02, c03, c04, c20};
+use gpa_verif::props::{c02, c03, c04, c13, c20};
 use gpa_verif::report::{Known, Params, Stats, Violation};
 use gpa_verif::runner::Drive;
 use std::time::Instant;
@@ -48,6 +48,11 @@ fn main() {
             let n = params.share(if th { 2_000_000 } else { 40_000 });
             Drive { params: &params, stats: &mut stats, known: &known }.run("c20.notify", 21, c20::notify_strategy(), n, c20::eval_notify);
             (c20::RULE.into(), vec!["StatusState::update_state and ServiceState::update_service_state_entry are the only writers of the reported health and notification decisions"])
+        }
+        "C13" => {
+            let n = params.share(if th { 2_000_000 } else { 40_000 });
+            Drive { params: &params, stats: &mut stats, known: &known }.run("c13.pure", 13, c13::pure_strategy(), n, c13::eval_pure);
+            (c13::RULE_PURE.into(), vec!["part A calls the public functions directly; parts B/C reach the same code through the listener and the key keeper"])
         }
         other => {
             eprintln!("pure: unknown property '{}'", other);
